@@ -111,9 +111,9 @@ def gen_op(rng, sw, last_sample):
         op.update(n_items=N, container=cont, items=gen_strings(rng, N))
         op["maxseqs"] = rng.choice([None, 0, 1, max(0, N - 1), N, N + 1, rng.randint(0, N + 1)])
         if cont == "dataframe":
-            op["index_kind"] = rng.choice(["default", "offset", "strings", "shuffled"])
+            op["index_kind"] = rng.choice(["default", "offset", "strings", "shuffled", "duplicates"])
         if cont == "series":
-            op["index_kind"] = rng.choice(["default", "offset"])
+            op["index_kind"] = rng.choice(["default", "offset", "duplicates"])
         if "rng_extreme_subset" in sw["faults"] and cont in ("list", "ndarray") and rng.random() < 0.5:
             op["extreme"] = rng.choice(["first", "last", "stride"])
     elif kind == "powerlaw_sample":
@@ -323,6 +323,8 @@ def make_container(items, kind, index_kind="default"):
         idx = ["r%d" % i for i in range(n)]
     elif index_kind == "shuffled":
         idx = list(reversed(range(n)))
+    elif index_kind == "duplicates":  # two repertoires stacked without ignore_index
+        idx = [i % max(1, (n + 1) // 2) for i in range(n)]
     else:
         idx = list(range(n))
     if kind == "series":
@@ -478,15 +480,25 @@ def execute(trace, ctx=None):
                     if not isinstance(res, pd.DataFrame):
                         violation = V("table_rows_not_subset", "downsample", step, "result is %s, not a table" % type(res).__name__)
                     else:
+                        # every input row carries a unique id in column 'clone' (labels may repeat): a subset of rows is a set of
+                        # distinct ids, each with the label and the cells it has in the input
                         labels = list(res.index)
                         log.append(["downsample", "df", [str(x) for x in labels]])
+                        ids = list(res["clone"]) if "clone" in res.columns else None
                         if len(res) != m:
-                            violation = V("wrong_length", "downsample", step, "table of %d rows, maxseqs=%d -> %d rows" % (N, m, len(res)))
-                        elif len(set(labels)) != len(labels) or any(l not in set(before.index) for l in labels):
+                            violation = V("wrong_length", "downsample", step, "table of %d rows (index %s), maxseqs=%d -> %d rows" % (
+                                N, op.get("index_kind"), m, len(res)))
+                        elif list(res.columns) != list(before.columns) or ids is None:
+                            violation = V("table_rows_not_subset", "downsample", step, "columns changed: %r" % list(res.columns))
+                        elif len(set(ids)) != len(ids) or any(i not in set(before["clone"]) for i in ids):
                             violation = V("table_rows_not_subset", "downsample", step,
-                                          "row labels %r are not distinct labels of the input %r" % (labels, list(before.index)))
-                        elif list(res.columns) != list(before.columns) or not res.equals(before.loc[labels]):
-                            violation = V("table_rows_not_subset", "downsample", step, "rows differ from the input rows with the same labels")
+                                          "row ids %r are not distinct rows of the input %r" % (ids, list(before["clone"])))
+                        else:
+                            pos = {c: j for j, c in enumerate(before["clone"])}
+                            want = before.iloc[[pos[i] for i in ids]]
+                            if list(want.index) != labels or not res.reset_index(drop=True).equals(want.reset_index(drop=True)):
+                                violation = V("table_rows_not_subset", "downsample", step,
+                                              "rows differ from the input rows they come from (labels %r vs %r)" % (labels, list(want.index)))
                 else:
                     try:
                         got = [str(x) for x in list(res)]
